@@ -755,6 +755,12 @@ def generated_depth1(consumers=None):
 
 
 def generated_depth2(rng, k, consumers=None):
+    import os
+
+    sl = os.environ.get("VERIF_D2_SLICE")  # development sweeps: "i/n" = the i-th of n slices of ALL depth-2 programs
+    if sl:
+        i, n = map(int, sl.split("/"))
+        return all_depth2(consumers)[i::n]
     ops = list(UNARY)
     cs = list(consumers or CONSUMERS)
     out = set()
